@@ -286,6 +286,12 @@ func genCase(r *gen.Rand, wr *gen.Writer) (cfgIn, []op, string) {
 		c.ckPath = gen.Pick(r, []string{"", "/", "/app", "app", "/a/b/", "a/b"})
 		wr.Count("cookie-fields")
 	}
+	// tokens whose length is a multiple of 256 (a comparison that folds the length into one byte
+	// takes the empty cookie for equal)
+	if r.Chance(1, 8) {
+		c.kg = gen.Pick(r, []int{256, 512})
+		wr.Count("long-tokens")
+	}
 	wr.Count("eh-" + c.eh)
 	if c.next {
 		wr.Count("next-set")
@@ -364,6 +370,41 @@ func genCase(r *gen.Rand, wr *gen.Writer) (cfgIn, []op, string) {
 			if r.Chance(1, 2) {
 				tok = mangle(r, o.ck) // cookie and presented value differ slightly
 			}
+		}
+		// length-aimed near misses around a token the server knows: one of cookie / presented value is
+		// the other followed by 255, 256, 257 or 512 bytes (lengths that agree modulo 256, and
+		// controls), a proper prefix, or empty
+		if cl.ck != "" && ((unsafe && r.Chance(1, 6)) || (c.kg > 0 && r.Chance(1, 3))) {
+			base := cl.ck
+			if other := cls[r.Intn(ncl)].ck; other != "" && r.Chance(1, 6) {
+				base = other // another client's live token
+			}
+			pad := strings.Repeat(gen.Pick(r, []string{"x", "0", "-"}), gen.Pick(r, []int{255, 256, 256, 257, 512, 512, 1, 768}))
+			switch r.Intn(8) {
+			case 0, 1:
+				o.ck, tok = base+pad, base // cookie = token ++ pad
+			case 2:
+				o.ck, tok = base, base+pad // token = cookie ++ pad
+			case 3:
+				o.ck, tok = "", base // no cookie at all
+			case 4:
+				k := gen.Pick(r, []int{1, len(base) / 2, len(base) - 1})
+				if k < 0 || k > len(base) {
+					k = 0
+				}
+				o.ck, tok = base[:k], base // cookie a proper prefix of the token
+			case 5:
+				k := gen.Pick(r, []int{1, len(base) / 2, len(base) - 1})
+				if k < 0 || k > len(base) {
+					k = 0
+				}
+				o.ck, tok = base, base[:k] // token a proper prefix of the cookie
+			case 6:
+				o.ck, tok = base+pad, base+pad // both padded alike
+			default:
+				o.ck, tok = pad, base // same length class, other bytes
+			}
+			wr.Count("length-near-miss")
 		}
 		place := c.ext
 		if r.Chance(1, 12) {
